@@ -8,7 +8,7 @@
 //!
 //! Model: every request is served by a block of `BLOCK` bytes (default 256, compile-time environment
 //! variable VERIF_ALLOC_BLOCK); larger requests are outside the bound (`assume(false)`, visible as an
-//! unsatisfied cover). `realloc` is therefore always in place. Blocks are zero-initialised (safe Rust never
+//! unsatisfied cover). `realloc` is therefore always in place and `dealloc` is a no-op. Blocks are zero-initialised (safe Rust never
 //! reads uninitialised memory). Out-of-bounds accesses into the slack of a block are not detected — memory
 //! safety of std is not a subject of the harnesses that apply this model.
 #![allow(dead_code)]
@@ -40,10 +40,9 @@ pub unsafe fn alloc_stub(layout: Layout) -> *mut u8 {
     unsafe { std::alloc::alloc_zeroed(Layout::from_size_align_unchecked(BLOCK, layout.align())) }
 }
 
-/// stub for `alloc::alloc::dealloc_nonnull`
-pub unsafe fn dealloc_nonnull_stub(ptr: NonNull<u8>, layout: Layout) {
-    unsafe { std::alloc::dealloc(ptr.as_ptr(), Layout::from_size_align_unchecked(BLOCK, layout.align())) }
-}
+/// stub for `alloc::alloc::dealloc_nonnull`: blocks are never reused (std's public `dealloc` delegates to
+/// `dealloc_nonnull`, so there is nothing left to call; leaking is unobservable for the harnesses).
+pub unsafe fn dealloc_nonnull_stub(_ptr: NonNull<u8>, _layout: Layout) {}
 
 /// stub for `alloc::alloc::realloc_nonnull`
 pub unsafe fn realloc_nonnull_stub(ptr: NonNull<u8>, _layout: Layout, new_size: usize) -> *mut u8 {
